@@ -182,6 +182,39 @@ def calendar_producers_rule(ctx, rule: str) -> None:
               witness={"month": next((m + 1 for m in range(12) if qt and qt[m] != m // 3 + 1), None)} if qt else None)
 
 
+def week_guard_eval(ctx) -> T.Optional[T.List[str]]:
+    """v2version.is_valid_week_pattern evaluated on every pairing of a year part and a week part in three layouts (adjacent,
+    separated by other parts, week before year) and on patterns with one of them only: False exactly for a calendar year with
+    the ISO week or an ISO year with a Monday/Sunday week.  None when the body is outside what the evaluator handles."""
+    from sa.model import CannotFold, EvalError
+    prog = ctx.prog
+    g = prog.function("v2version.is_valid_week_pattern")
+    years = {"YYYY": "y", "YY": "y", "0Y": "y", "GGGG": "g", "GG": "g", "0G": "g"}
+    weeks = {"WW": "w", "0W": "w", "UU": "w", "0U": "w", "VV": "v", "0V": "v"}
+    cases: T.List[T.Tuple[str, bool]] = [("MAJOR.MINOR.PATCH", True), ("vYYYY0M.BUILD[-TAG]", True)]
+    for y, yk in years.items():
+        cases.append((f"{y}.BUILD", True))
+        for w, wk in weeks.items():
+            ok = not ((yk == "y" and wk == "v") or (yk == "g" and wk == "w"))
+            for layout in (f"{y}.{w}.PATCH", f"v{y}w{w}.BUILD", f"{y}-W{w}.PATCH", f"{y}.MINOR.{w}", f"v{y}.BUILD-w{w}[-TAG]", f"{w}.{y}.PATCH"):
+                cases.append((layout, ok))
+    for w in weeks:
+        cases.append((f"MAJOR.{w}", True))
+    wrong: T.List[str] = []
+    try:
+        for pat, want in cases:
+            try:
+                got, _ys = prog.run_body(g, {g.params[0]: pat, "__strict__": None})
+            except EvalError as ex:
+                got = f"raises: {ex}"
+            if got is not want and len(wrong) < 5:
+                wrong.append(f"{pat}: {got} (expected {want})")
+    except (CannotFold, TypeError, AttributeError, KeyError, ValueError, IndexError) as ex:
+        ctx.observe(f"{g.fq} not evaluated ({type(ex).__name__}: {str(ex)[:80]})")
+        return None
+    return wrong
+
+
 def run(ctx) -> None:
     prog, cfgs = ctx.prog, ctx.cfgs
     ctx.rule("R1", "guard lists == parts of the year/week fields; returns False iff (Y with V) or (G with W/U)")
@@ -201,57 +234,68 @@ def run(ctx) -> None:
     g = prog.function("v2version.is_valid_week_pattern")
     ctx.visit(g.fq)
     p = g.params[0]
-    groups = {"yy": {"year_y"}, "ww": {"week_w", "week_u"}, "gg": {"year_g"}, "vv": {"week_v"}}
-    expected = {k: {part for part, f in fields.items() if f in fs} for k, fs in groups.items()}
-    found: T.Dict[str, str] = {}          # variable -> group
-    n_lists = 0
-    for n in walk_no_nested(g.node):
-        if not (isinstance(n, ast.Assign) and len(n.targets) == 1 and isinstance(n.targets[0], ast.Name)):
-            continue
-        v = n.value
-        if isinstance(v, ast.Call) and unparse(v.func) == "any" and v.args and isinstance(v.args[0], ast.GeneratorExp):
-            ge = v.args[0]
-            ok_shape = len(ge.generators) == 1 and isinstance(ge.elt, ast.Compare) and isinstance(ge.elt.ops[0], ast.In) and unparse(ge.elt.comparators[0]) == p \
-                and unparse(ge.elt.left) == unparse(ge.generators[0].target)
-            ctx.require(ok_shape, f"is_valid_week_pattern: list test shape not enumerated: {unparse(v)[:60]}")
-            parts = set(prog.fold(g.module, ge.generators[0].iter))
-            n_lists += 1
-            match = [k for k, exp in expected.items() if parts & exp]
-            if not match:
-                continue          # a list about other parts: its variable stays a free atom of the guard's condition
-            # a list that overlaps two groups is judged against the one it mostly agrees with (the stray part is the finding)
-            match.sort(key=lambda k_: (-len(parts & expected[k_]), k_))
-            ctx.require(len(match) == 1 or len(parts & expected[match[0]]) > len(parts & expected[match[1]]),
-                        f"is_valid_week_pattern: list {sorted(parts)} mixes part groups evenly")
-            k = match[0]
-            found[n.targets[0].id] = k
-            ctx.check("R1", parts == expected[k], f"guard list for {sorted(groups[k])} == {sorted(expected[k])}",
-                      f"v2version.is_valid_week_pattern: part list for {sorted(groups[k])} disagrees with PATTERN_PART_FIELDS",
-                      f"list {sorted(parts)}; table says {sorted(expected[k])} (missing {sorted(expected[k] - parts)}, extra {sorted(parts - expected[k])})",
-                      loc=g.loc(n), witness=sorted(expected[k] ^ parts))
-    ctx.floor("R1", "part lists in is_valid_week_pattern", n_lists, 4)
-    ctx.floor("R1", "parts covered by the lists", sum(len(v) for v in expected.values()), 12)
-    ctx.require(set(found.values()) == set(groups), f"is_valid_week_pattern: groups found {sorted(found.values())}")
-    cfg = cfgs.get(g.fq)
-    pc = PathCond(cfg)
-    var = {k: BF.var(v) for v, k in found.items()}
-    false_reach = BF.false()
-    true_reach = BF.false()
-    for n in cfg.nodes:
-        if n.kind == "stmt" and isinstance(n.ast, ast.Return) and isinstance(n.ast.value, ast.Constant) and n.id in cfg.reachable():
-            if n.ast.value.value is False:
-                false_reach = false_reach | pc.reach(n.id)
-            elif n.ast.value.value is True:
-                true_reach = true_reach | pc.reach(n.id)
-    spec = (var["yy"] & var["vv"]) | (var["gg"] & var["ww"])
-    atoms = sorted(found)
-    # exact equivalence over *all* branch atoms of the function: any extra condition (e.g. "has a month part")
-    # that lets an incoherent pairing through makes the two sides differ
-    ctx.check("R1", false_reach.equiv(spec) and true_reach.equiv(~spec),
-              "is_valid_week_pattern returns False iff (calendar year & ISO week) or (ISO year & Monday/Sunday week)",
-              "v2version.is_valid_week_pattern: rejects the wrong pairings", f"False iff {false_reach.to_dnf()}", loc=g.loc(),
-              witness=false_reach.diff_witness(spec))
+    ev = week_guard_eval(ctx)
+    if ev is not None:
+        ctx.check("R1", not ev, "is_valid_week_pattern returns False iff (calendar year & ISO week) or (ISO year & Monday/Sunday week), wherever the parts stand (evaluated)",
+                  "v2version.is_valid_week_pattern: rejects the wrong pairings", "; ".join(ev[:3]) + ": around New Year such a pattern renders a lower version for a later date", loc=g.loc(),
+                  witness={"pattern": ev[0].split(":")[0] if ev else ""})
+    # the shape rule (guard lists == the parts of the year / week fields of the part table) runs as well where it applies; when the
+    # guard is written another way and was evaluated, its refusal is of no concern
+    try:
+        groups = {"yy": {"year_y"}, "ww": {"week_w", "week_u"}, "gg": {"year_g"}, "vv": {"week_v"}}
+        expected = {k: {part for part, f in fields.items() if f in fs} for k, fs in groups.items()}
+        found: T.Dict[str, str] = {}          # variable -> group
+        n_lists = 0
+        for n in walk_no_nested(g.node):
+            if not (isinstance(n, ast.Assign) and len(n.targets) == 1 and isinstance(n.targets[0], ast.Name)):
+                continue
+            v = n.value
+            if isinstance(v, ast.Call) and unparse(v.func) == "any" and v.args and isinstance(v.args[0], ast.GeneratorExp):
+                ge = v.args[0]
+                ok_shape = len(ge.generators) == 1 and isinstance(ge.elt, ast.Compare) and isinstance(ge.elt.ops[0], ast.In) and unparse(ge.elt.comparators[0]) == p \
+                    and unparse(ge.elt.left) == unparse(ge.generators[0].target)
+                ctx.require(ok_shape, f"is_valid_week_pattern: list test shape not enumerated: {unparse(v)[:60]}")
+                parts = set(prog.fold(g.module, ge.generators[0].iter))
+                n_lists += 1
+                match = [k for k, exp in expected.items() if parts & exp]
+                if not match:
+                    continue          # a list about other parts: its variable stays a free atom of the guard's condition
+                # a list that overlaps two groups is judged against the one it mostly agrees with (the stray part is the finding)
+                match.sort(key=lambda k_: (-len(parts & expected[k_]), k_))
+                ctx.require(len(match) == 1 or len(parts & expected[match[0]]) > len(parts & expected[match[1]]),
+                            f"is_valid_week_pattern: list {sorted(parts)} mixes part groups evenly")
+                k = match[0]
+                found[n.targets[0].id] = k
+                ctx.check("R1", parts == expected[k], f"guard list for {sorted(groups[k])} == {sorted(expected[k])}",
+                          f"v2version.is_valid_week_pattern: part list for {sorted(groups[k])} disagrees with PATTERN_PART_FIELDS",
+                          f"list {sorted(parts)}; table says {sorted(expected[k])} (missing {sorted(expected[k] - parts)}, extra {sorted(parts - expected[k])})",
+                          loc=g.loc(n), witness=sorted(expected[k] ^ parts))
+        ctx.floor("R1", "part lists in is_valid_week_pattern", n_lists, 4)
+        ctx.floor("R1", "parts covered by the lists", sum(len(v) for v in expected.values()), 12)
+        ctx.require(set(found.values()) == set(groups), f"is_valid_week_pattern: groups found {sorted(found.values())}")
+        cfg = cfgs.get(g.fq)
+        pc = PathCond(cfg)
+        var = {k: BF.var(v) for v, k in found.items()}
+        false_reach = BF.false()
+        true_reach = BF.false()
+        for n in cfg.nodes:
+            if n.kind == "stmt" and isinstance(n.ast, ast.Return) and isinstance(n.ast.value, ast.Constant) and n.id in cfg.reachable():
+                if n.ast.value.value is False:
+                    false_reach = false_reach | pc.reach(n.id)
+                elif n.ast.value.value is True:
+                    true_reach = true_reach | pc.reach(n.id)
+        spec = (var["yy"] & var["vv"]) | (var["gg"] & var["ww"])
+        atoms = sorted(found)
+        # exact equivalence over *all* branch atoms of the function: any extra condition (e.g. "has a month part")
+        # that lets an incoherent pairing through makes the two sides differ
+        ctx.check("R1", false_reach.equiv(spec) and true_reach.equiv(~spec),
+                  "is_valid_week_pattern returns False iff (calendar year & ISO week) or (ISO year & Monday/Sunday week)",
+                  "v2version.is_valid_week_pattern: rejects the wrong pairings", f"False iff {false_reach.to_dnf()}", loc=g.loc(),
+                  witness=false_reach.diff_witness(spec))
 
+    except AnalysisError:
+        if ev is None:
+            raise
     # ---------------------------------------------------------------- R2
     inc = prog.function("v2version.incr")
     ctx.visit(inc.fq)
